@@ -204,3 +204,9 @@ void xwrite(const void *vbuf, size_t size);
    by priority queue macros. */
 void up_heap(void *root, unsigned size);
 void down_heap(void *root, unsigned size);
+
+#ifdef KJN_LBZIP2_VERIF
+/* Verification hook H2: report a scheduler event (task start, speculative
+   block bookkeeping) to the harness.  Weak no-op unless a harness defines it. */
+void verif_event(const char *name);
+#endif
